@@ -9,13 +9,22 @@ META = {
                     "FIXED_GOAL / MIN_LENGTH honoured, only free clusters, may fail any time; the superblock's cluster is in use); "
                     "ext2fs_map_cluster_block returns the block implied by any other mapped block of the logical cluster; the file "
                     "before the call satisfies the extent / bigalloc cluster invariant",
+                    "setbmap0: memmove inside extent.c is replaced by a word-wise shift of i_block by one 12-byte entry (checked to "
+                    "be exactly that); ext2fs_write_inode succeeds; results that need a 5th root entry are excluded",
+                    "punchwalk: the extent API behaves as the model in punchwalk.c (goto lands on the holding / next-lowest / lowest "
+                    "extent, NEXT_SIB stops at the end of a leaf, NEXT_LEAF crosses, position undefined after delete until goto)",
                     "punch_ind: block numbers are fixed distinct tokens, presence of each slot symbolic; slots >= K "
                     "of every indirect block are zero"],
     "outside": ["histories are covered only through the inductive step on the handle invariant (fileio); of the mapping "
                 "layer only bmap.c is encoded (bmap_ind: block-mapped lookup/BMAP_SET; bmap_cluster: extent_bmap + "
-                "implied_cluster_alloc over a table); BMAP_ALLOC through indirect blocks and extent.c "
-                "(ext2fs_extent_set_bmap, node split/merge, fix_parents) are not encoded",
-                "ext2fs_punch_extent's extent-tree editing (only its block-release helper punch_extent_blocks is decided)",
+                "implied_cluster_alloc over a table); BMAP_ALLOC through indirect blocks is not encoded",
+                "extent.c: the real code is decided only at depth 0 (setbmap0: one ext2fs_extent_set_bmap on a root of 0..3 "
+                "extents); node splits (extent_node_split, ext2fs_alloc_block), trees of depth >= 1 (index nodes, leaf I/O, "
+                "fix_parents going up, leaf removal in ext2fs_extent_delete) are NOT encoded: the real extent.c at depth 1 "
+                "under ext2fs_punch_extent (punchext.c, unregistered) did not get through symbolic execution",
+                "ext2fs_punch_extent is decided over a leaf-aware MODEL of the extent API (punchwalk), not over extent.c; "
+                "the release of emptied leaf blocks and its i_blocks update happen inside extent.c and are not covered; bigalloc "
+                "punching beyond punch_ext_blocks' release arithmetic",
                 "allocator (alloc.c, alloc_stats.c bitmap/group accounting), mkjournal.c",
                 "fallocate.c: only ext_falloc_helper()+claim_range() are decided (falloc_helper), under the contract extent_fallocate() "
                 "establishes (left ends at range_start, right starts at range_end+1, the range is a hole) which is ASSUMED, not proved: "
@@ -173,6 +182,19 @@ HARNESSES += [
                "ext2fs_extent_set_bmap(L, P, flags) with L in 0..31, P = 0 (unmap) or 1..65535, flags 0 / SET_BMAP_UNINIT, handle "
                "positioned by goto(S), S in 0..31; results needing a 5th extent (node split) excluded"),
 ]
+# ---- punch walk over two leaves (punch.c real, leaf-aware model of the extent API) ----
+PUNCHWALK_UW = ["punch_extent_blocks.0:6", "punch_extent_blocks.1:3", "ext2fs_extent_delete.0:7", "ext2fs_extent_replace.0:7",
+                "vf_above.0:7", "vf_lower.0:7", "vf_fetch.0:7"] + ["ext2fs_punch_extent.%d:8" % i for i in range(11)] + main_loops(8, 7)
+HARNESSES += [
+    dict(name="punchwalk", src="punchwalk.c",
+         funcs=["ext2fs_punch", "ext2fs_punch_extent", "punch_extent_blocks", "ext2fs_blocks_count"],
+         extra_src=["lib/ext2fs/punch.c", "lib/ext2fs/blknum.c"],
+         configs=[{"NL0": 1, "NL1": 1}, {"NL0": 2, "NL1": 1, "_tier": "thorough"}, {"NL0": 1, "NL1": 2, "_tier": "thorough"},
+                  {"NL0": 2, "NL1": 2, "_tier": "thorough"}],
+         unwind=6, unwindset=PUNCHWALK_UW, backends=["kissat"], witness_backends=["kissat"], cap_quick=200, cap_thorough=1200,
+         bound="extents spread over two leaves (1+1 quick; 2+1, 1+2, 2+2 thorough), gaps 0..3, lengths 1..4, either state, disjoint "
+               "physical ranges; ext2fs_punch(start, end) with start 0..31, end = start+0..15 or ~0; ratio 1"),
+]
 MANIFEST = {
     "text": "Bounded-exhaustive kernels of the libext2fs file data path: (1) one real file-handle operation "
             "(read/write/llseek/flush/set_size/close) from every handle+mapping+disk state satisfying the buffer "
@@ -183,7 +205,10 @@ MANIFEST = {
             "preallocation kernel ext_falloc_helper() from every small well-formed extent state: per logical / physical probe block, "
             "old mappings and states preserved, the whole range mapped on success and nothing outside it, only newly mapped (or newly "
             "claimed, unmapped) blocks zeroed and every newly visible initialised block zeroed, every new block claimed exactly once from "
-            "an allocator answer with i_blocks in step, written extents well formed (length limits, order, cluster invariant).",
+            "an allocator answer with i_blocks in step, written extents well formed (length limits, order, cluster invariant); "
+            "(6) one real ext2fs_extent_set_bmap() on every small depth-0 extent root: the set block gets exactly the requested "
+            "mapping and state, every other block keeps its own, the root stays well formed and the handle consistent; (7) the real "
+            "ext2fs_punch_extent() walk over extents in two leaves: exactly the blocks in range are unmapped and released once.",
     "note": "Trusted: CBMC's C semantics, the mapping/allocator/inline-store stubs, the harness reference models. "
             "The real mapping layer (bmap.c/extent.c), the allocator and whole-filesystem consistency are outside.",
 }
